@@ -314,19 +314,28 @@ def envelope_unit(a, n, p, hs, w, diff_forming, amp):
     """U = amp * min_j [ T_p(w h_j) + R(h_j) ]  for the generated steps h_j   (DESIGN 10.1)
 
     T_p(r) = n! (sum_{k >= n+p} |c_k| r^(k-n) + Cauchy tail)          truncation of an order-p rule
-    R(h)   = eps n! max_g M_g(w h) / h^n                              rounding of a difference of values
-           = eps n! max_g sum_{k >= n} |c_k(g)| (w h)^(k-n)           for the cancellation-free rules
+    R(h)   = eps n! max(max_g M_g(w h), sens_0) / h^n                 rounding of a difference of values
+           = eps max(n! max_g sum_{k >= n} |c_k(g)| (w h)^(k-n), sens_n)   cancellation-free rules
+             (sens_k = sum over intermediates g of |d f^(k) / d log g|: conditioning of the evaluation)
     amp    = sum |rule weights| (conditioning of the rule).  Returns (U, T_best, R_best) or None."""
     hs = np.asarray(sorted(set(float(h) for h in hs if h > 0)))
     if hs.size == 0:
         return None
     radii = w * hs
+    sens = a.sensitivity(n)
+    if sens is None:
+        return None
     with np.errstate(all='ignore'):
+        ls0 = math.log(sens[0]) if sens[0] > 0 else -math.inf
+        lsn = math.log(sens[1]) if sens[1] > 0 else -math.inf
         lt = a.log_bound(n, radii, node=-1, kmin=n + p)[0]
         if diff_forming:
-            lr = np.max(a.log_bound(0, radii), axis=0) + math.lgamma(n + 1) - n * np.log(hs) + math.log(EPS)
+            # rounding of the sampled values: sup of the sub-expressions on the disc, or the
+            # first-order sensitivity of f to relative errors of its intermediates, whichever is larger
+            lv = np.logaddexp(np.max(a.log_bound(0, radii), axis=0), ls0)
+            lr = lv + math.lgamma(n + 1) - n * np.log(hs) + math.log(EPS)
         else:
-            lr = np.max(a.log_bound(n, radii, kmin=n), axis=0) + math.log(EPS)
+            lr = np.logaddexp(np.max(a.log_bound(n, radii, kmin=n), axis=0), lsn) + math.log(EPS)
         tot = np.logaddexp(lt, lr)
     j = int(np.argmin(tot))
     if not np.isfinite(tot[j]) or tot[j] > 700:
